@@ -433,7 +433,9 @@ def noisy_file(rng, kind, delim, directed=False):
             lines.append(txt + "\n"); bad = True
             break
         if rng.random() < 0.25:
-            txt += rng.choice([" #", "#", " # trailing 5 6 7", "#" + sep + "1"])
+            # a blank delimiter between the last column and the marker is stripped with the rest of the trailing blanks;
+            # any other delimiter there would be an (empty) extra column, so it is only generated for blank delimiters
+            txt += rng.choice([" #", "#", " # trailing 5 6 7", "#" + sep + "1"] + ([sep + "# note", sep + "#"] if sep.isspace() else []))
         lines.append(ws + txt + (ws if rng.random() < 0.5 else "") + "\n")
         clean.append(row)
     return lines, clean, bad
@@ -460,7 +462,7 @@ class C18:
             yield {"kind": "compact", "ts": s, "src": "rand-compact"}
         for i in range(n):
             kind = i % 2
-            delim = rng.choice([None, None, ",", ";", "\t"])
+            delim = rng.choice([None, None, ",", ";", "\t", " "])      # ' ' given explicitly is not the default: no merging of blanks
             cls = rng.choice([0, 1])
             lines, clean, bad = noisy_file(rng, kind, delim, bool(cls))
             yield {"kind": "noise", "rk": kind, "cls": cls, "delim": delim, "text": lines, "clean": clean, "bad": bad, "src": "rand-noise"}
